@@ -46,7 +46,7 @@
 From Coq Require Import List NArith Bool Arith.
 From SV Require Import Clock.VClock Prim.Objects Engine.Exec Prim.Semaphore Prim.SemInv Lang.Code Lang.SyncOps Lang.AsyncOps Lang.Prog.
 From SV Require Import Lang.TokOps Lang.TokNotify Lang.TokWatch Lang.Tok Lang.TokSpec Lang.TokWatchSpec.
-From SV Require Import Proofs.TokBase Proofs.TokProto Proofs.TokSync Proofs.TokWatchProto Proofs.TokWatchBase.
+From SV Require Import Proofs.TokBase Proofs.TokProto Proofs.TokSync Proofs.TokHeld Proofs.TokWatchProto Proofs.TokWatchBase.
 Import ListNotations.
 Close Scope N_scope.
 
@@ -361,4 +361,36 @@ Example C19_watch_model_all_scripts :
   forallb (fun s => match verdict watch1 wc_bodies s with OPass => true | _ => false end) scripts4 = true /\
   forallb (fun s => match woplog wc_bodies s 106%N with [[1]; [0]]%N => true | _ => false end) scripts4 = true /\
   forallb (fun s => match woplog wc_bodies s 104%N with [[7]]%N => true | _ => false end) scripts4 = true.
+Proof. repeat split; vm_compute; reflexivity. Qed.
+
+(* ================================================================== *)
+(* 7. SemaphorePermit::merge / split, RwLockWriteGuard::downgrade      *)
+(*    move permits between what a body holds; none is created or lost  *)
+(* ================================================================== *)
+Theorem C19_merge_conserves : forall s hs n1 h1 n2 h2,
+  take_held s hs = Some (n1, h1) -> take_held s h1 = Some (n2, h2) ->
+  total_held s ((s, (n1 + n2)%N) :: h2) = total_held s hs.
+Proof. exact merge_held_total. Qed.
+Print Assumptions C19_merge_conserves.
+
+Theorem C19_split_conserves : forall s n hs hs', split_held s n hs = Some hs' -> total_held s ((s, n) :: hs') = total_held s hs.
+Proof. exact split_held_total. Qed.
+Print Assumptions C19_split_conserves.
+
+Theorem C19_downgrade_conserves : forall s hs k h', take_held s hs = Some (k, h') -> (1 <= k)%N ->
+  (total_held s ((s, 1%N) :: h') + (k - 1) = total_held s hs)%N.
+Proof. exact downgrade_held_total. Qed.
+Print Assumptions C19_downgrade_conserves.
+
+Theorem C19_other_objects_untouched : forall s s' hs n hs', s <> s' -> take_held s hs = Some (n, hs') -> total_held s' hs' = total_held s' hs.
+Proof. exact take_held_other. Qed.
+Print Assumptions C19_other_objects_untouched.
+
+(* write; downgrade; a second reader gets in, a writer does not; split and merge around a semaphore of 3 *)
+Example C19_downgrade_split_merge_model :
+  oplog [tok_sem_new 2%N [0%N]] [[TAcq 86%N true 0 2%N; TDowngrade 0 2%N; TTry 87%N false 0 1%N; TTry 88%N false 0 2%N]] 87%N = [[0%N]] /\
+  oplog [tok_sem_new 2%N [0%N]] [[TAcq 86%N true 0 2%N; TDowngrade 0 2%N; TTry 87%N false 0 1%N; TTry 88%N false 0 2%N]] 88%N = [[1%N]] /\
+  oplog [tok_sem_new 3%N [0%N]] [[TAcq 70%N false 0 3%N; TSplit 0 1%N; TRel 0; TSemInfo 0; TSplit 0 5%N; TMerge 0; TRel 0; TSemInfo 0]] 76%N
+    = [[1; 0]; [3; 0]]%N /\
+  oplog [tok_sem_new 3%N [0%N]] [[TAcq 70%N false 0 2%N; TAcq 70%N false 0 1%N; TMerge 0; TRel 0; TSemInfo 0]] 76%N = [[3; 0]%N].
 Proof. repeat split; vm_compute; reflexivity. Qed.
